@@ -22,34 +22,40 @@ Fixpoint product (vals : list Z) (n : nat) : list (list Z) :=
    multiple of 64 and 0 <= rank < 64 (anything else is sent unpacked) *)
 Definition unpack (v : Z) : Z * Z := (v / 64 * 64, v mod 64).
 
-(* a whole case: entry i (block i) in bits [w*i, w*(i+1)) *)
-Fixpoint fields (w : Z) (n : nat) (v : Z) : list Z :=
+(* a whole case in one primitive integer: entry i (block i) in bits [w*i, w*(i+1)); decoded with the primitive shifts
+   and masks (to_Z_rec n reads the n low bits) *)
+Fixpoint fields (w mask : int) (n : nat) (v : int) : list int :=
   match n with
   | O => []
-  | S k => v mod 2 ^ w :: fields w k (v / 2 ^ w)
+  | S k => (v land mask)%uint63 :: fields w mask k (v >> w)%uint63
   end.
 
-Definition unpack_case (w : Z) (n : nat) (v : Z) : list (Z * Z) := map unpack (fields w n v).
+Definition unpack_i (wn : nat) (e : int) : Z * Z :=
+  (Z.shiftl (Uint63.to_Z_rec wn (e >> 6)%uint63) 6, Uint63.to_Z_rec 6 (e land 63)%uint63).
+
+Definition unpack_case (w : int) (n : nat) (v : int) : list (Z * Z) :=
+  let wn := Z.to_nat (Uint63.to_Z_rec 7 w) in
+  map (unpack_i wn) (fields w ((1 << w) - 1)%uint63 n v).
 
 Definition inputs_of (prefix vals : list Z) (k : nat) : list (list Z) := map (app prefix) (product vals k).
 
-Fixpoint zip_cases {A} (f : list Z -> list (Z * Z) -> A) (w : Z) (inputs : list (list Z)) (outs : list Z) : list A :=
+Fixpoint zip_cases {A} (f : list Z -> list (Z * Z) -> A) (w : int) (inputs : list (list Z)) (outs : list int) : list A :=
   match inputs, outs with
   | s :: rest, o :: orest => f s (unpack_case w (length s) o) :: zip_cases f w rest orest
   | _, _ => []
   end.
 
-(* inputs: prefix ++ t for t in product vals k; outs: one packed output per input, same order *)
-Definition agree_block (prefix vals : list Z) (k : nat) (gs w : Z) (outs : list int) : list bool :=
+(* inputs: prefix ++ t for t in product vals k; outs: one packed output per input, same order; w <= 62 / n *)
+Definition agree_block (prefix vals : list Z) (k : nat) (gs : Z) (w : int) (outs : list int) : list bool :=
   let inputs := inputs_of prefix vals k in
   if (length outs =? length inputs)%nat
-  then zip_cases (fun s o => agree_assign s gs (ObsAssigned o)) w inputs (zs outs)
+  then zip_cases (fun s o => agree_assign s gs (ObsAssigned o)) w inputs outs
   else map (fun _ => false) inputs.
 
-Definition check_block (prefix vals : list Z) (k : nat) (gs w : Z) (outs : list int) : list bool :=
+Definition check_block (prefix vals : list Z) (k : nat) (gs : Z) (w : int) (outs : list int) : list bool :=
   let inputs := inputs_of prefix vals k in
   if (length outs =? length inputs)%nat
-  then zip_cases (fun s o => C14_assign_checkbZ s gs o) w inputs (zs outs)
+  then zip_cases (fun s o => C14_assign_checkbZ s gs o) w inputs outs
   else map (fun _ => false) inputs.
 
 (* other cases: sizes and one packed entry per block *)
@@ -96,7 +102,13 @@ Example product_order : product [1; 2] 2 = [[1; 1]; [1; 2]; [2; 1]; [2; 2]].
 Proof. reflexivity. Qed.
 
 Example agree_block_example :
-  agree_block [128] [64; 500] 1 2 10 [(128 + 0) + 1024 * (64 + 1); (128 + 1) + 1024 * (512 + 0)]%uint63 = [true; true].
+  agree_block [128] [64; 500] 1 2 10%uint63 [(128 + 0) + 1024 * (64 + 1); (128 + 1) + 1024 * (512 + 0)]%uint63 = [true; true].
+Proof. vm_compute. reflexivity. Qed.
+
+Example unpack_case_example : unpack_case 10%uint63 2 ((128 + 3) + 1024 * (512 + 0))%uint63 = [(128, 3); (512, 0)].
+Proof. vm_compute. reflexivity. Qed.
+
+Example agree_block_rejects : agree_block [128] [64; 500] 1 2 10%uint63 [(128 + 1) + 1024 * (64 + 0); (128 + 1) + 1024 * (512 + 0)]%uint63 = [false; true].
 Proof. vm_compute. reflexivity. Qed.
 
 Example take_state_example : take_state 9 [3; 1; 2; 1; 4; 7; 1; 0] = [(3, (1, [1; 4])); (7, (1, []))].
